@@ -52,7 +52,7 @@ func verifHarness_C02_extras() {
 // R: reader gate with a dialect. One frame with a dialect id (forked), arbitrary header, payload of length n,
 // arbitrary carried checksum: delivered iff the carried checksum equals the spec value (and, for v1, the
 // length is the exact base length); otherwise a parse error and no frame.
-func verifHarness_C02_R(version int, n int) {
+func verifHarness_C02_R(version int, n int, cut int) {
 	d := verifDialectRW()
 	specs := verifSpecs()
 	s := specs[verifNondetRange(0, len(specs)-1)]
@@ -69,7 +69,11 @@ func verifHarness_C02_R(version int, n int) {
 		wire = verifSpecV2(0, compat, seq, sys, comp, s.id, payload, ck, false, 0, 0, nil)
 		want = verifSpecChecksumV2(0, compat, seq, sys, comp, s.id, payload, extra)
 	}
-	rd := &Reader{ByteReader: &verifChunkReader{data: wire}, DialectRW: d}
+	var chunks []int
+	if cut > 0 {
+		chunks = []int{cut}
+	}
+	rd := &Reader{ByteReader: &verifChunkReader{data: wire, chunks: chunks}, DialectRW: d}
 	verifAssert(rd.Initialize() == nil, "C02/R/init")
 	fr, err := rd.Read()
 	lengthOK := version == 2 || n == s.sizeNormal
@@ -85,4 +89,39 @@ func verifHarness_C02_R(version int, n int) {
 		verifAssert(fr.GetMessage().GetID() == s.id, "C02/R/delivered-id")
 	}
 	verifReach("C02/R")
+}
+
+// H: header damage. A v2 frame whose three id bytes, length and header bytes are arbitrary: it reaches the application
+// as a decoded message only if the id on the wire belongs to the dialect and the carried checksum is the spec value
+// for the bytes on the wire.
+func verifHarness_C02_H(n int) {
+	d := verifDialectRW()
+	compat, seq, sys, comp := verifNondetU8(), verifNondetU8(), verifNondetU8(), verifNondetU8()
+	id := verifNondetU32()
+	verifAssume(id < 1<<24)
+	ck := verifNondetU16()
+	payload := verifNondetBytes(n)
+	wire := verifSpecV2(0, compat, seq, sys, comp, id, payload, ck, false, 0, 0, nil)
+	rd := &Reader{ByteReader: &verifChunkReader{data: wire}, DialectRW: d}
+	verifAssert(rd.Initialize() == nil, "C02/H/init")
+	fr, err := rd.Read()
+	if err == nil {
+		_, isRaw := fr.GetMessage().(*message.MessageRaw)
+		if !isRaw {
+			// decoded: the wire id must be a dialect id and the checksum the spec value
+			inDialect := false
+			okck := false
+			for _, s := range verifSpecs() {
+				inDialect = verifOr(inDialect, id == s.id)
+				okck = verifOr(okck, verifAnd(id == s.id, ck == verifSpecChecksumV2(0, compat, seq, sys, comp, id, payload, verifSpecCRCExtra(s))))
+			}
+			verifAssert(inDialect, "C02/H/decoded-only-if-wire-id-in-dialect")
+			verifAssert(okck, "C02/H/decoded-only-if-checksum-covers-wire-bytes")
+			verifAssert(fr.GetMessage().GetID() == id, "C02/H/decoded-id-is-wire-id")
+		} else {
+			raw := verifRawOf(fr.GetMessage())
+			verifAssert(raw.ID == id, "C02/H/raw-id-is-wire-id")
+		}
+	}
+	verifReach("C02/H")
 }
